@@ -170,6 +170,33 @@ def Cell.pyEq (a b : Cell) : Bool :=
     | none, none => a == b
     | _, _ => false
 
+/-! ### Python `dict` keyed by cells: lookup and assignment under Python equality
+
+A Python `dict` finds a key by `hash` and `==`: the probe `1.0` (or `True`) FINDS the entry stored under `1`, and an
+assignment under `1.0` REPLACES THE VALUE of an existing entry `1` while the dict keeps the first key object.  The
+dictionaries `apply_matcher` / `filter_candset` build from the tables (`build_dict_from_table`, `generate_tokens`)
+are probed with the CANDSET's key values, whose dtype may differ from the table's (a candset key column turns
+`float64` as soon as it passed through a NaN, a CSV file or a merge). -/
+namespace Dict
+variable {ν : Type}
+
+/-- `d[k]` / `d.get(k)` on a cell-keyed dict: the value of the first (the only) entry whose key is Python-equal to `k` -/
+def getPy? (d : List (Cell × ν)) (k : Cell) : Option ν :=
+  match d with
+  | [] => none
+  | (k', v) :: m => if k'.pyEq k then some v else getPy? m k
+
+def getPyD (d : List (Cell × ν)) (k : Cell) (dflt : ν) : ν := (getPy? d k).getD dflt
+
+/-- `d[k] = v` on a cell-keyed dict: an entry whose key is Python-equal to `k` keeps its key object and gets the new
+    value; otherwise a new entry is appended -/
+def setPy (d : List (Cell × ν)) (k : Cell) (v : ν) : List (Cell × ν) :=
+  match d with
+  | [] => [(k, v)]
+  | (k', v') :: m => if k'.pyEq k then (k', v) :: m else (k', v') :: setPy m k v
+
+end Dict
+
 end SSJ
 
 namespace SSJ.Profiler
